@@ -108,14 +108,19 @@ class ValueWorld:
             return Intersection[tuple(self.real_type(a) for a in t["args"])]
         raise ValueError(k)
 
-    def build(self, methods):
-        from ovld import Ovld, call_next
+    def build(self, methods, host=False):
+        """host=True: the methods are same-named definitions in the body of a class using OvldBase
+        (registered in list order); the returned callable is the bound method of one instance."""
+        from ovld import Ovld, OvldBase, call_next, ovld
 
         self.budget = [0]
-        ns = {"LOG": self.log, "call_next": call_next, "__name__": "vfworld", "OBJ": self.objs, "BUDGET": self.budget}
+        self.inst = None
+        ns = {"LOG": self.log, "call_next": call_next, "__name__": "vfworld", "OBJ": self.objs, "BUDGET": self.budget,
+              "OvldBase": OvldBase, "ovld": ovld}
         src = []
-        for m in methods:
-            params = []
+        ind = "    " if host else ""
+        for m in (sorted(methods, key=lambda m: m["reg"]) if host else methods):
+            params = ["self"] if host else []
             for i, t in enumerate(m["pos"]):
                 ns[f"T_{m['id']}_{i}"] = self.real_type(t)
                 params.append(f"p{i + 1}: T_{m['id']}_{i}")
@@ -129,7 +134,7 @@ class ValueWorld:
             names = ", ".join(f"p{i + 1}" for i in range(len(m["pos"])))
             kwd = ", ".join(f"{kn!r}: {kn}" for kn in m.get("kwn", []))
             kwpass = ", ".join(f"{kn}={kn}" for kn in m.get("kwn", []))
-            body = f"    LOG.append(({m['id']!r}, [{names}], {{{kwd}}}))\n"
+            body = f"    LOG.append(({m['id']!r}, [{names}], {{{kwd}}}{', self' if host else ''}))\n"
             allargs = ", ".join(x for x in (names, kwpass) if x)
             b = m.get("body")
             if b == "next":
@@ -142,11 +147,21 @@ class ValueWorld:
                 body += f"    return call_next({other})\n"
             else:
                 body += f"    return {m['id']!r}\n"
-            src.append(f"def {m['id']}({', '.join(params)}):\n{body}")
+            if host:
+                deco = f"    @ovld(priority={m['prio']})\n" if m["prio"] else ""
+                body = "".join(ind + line + "\n" for line in body.splitlines())
+                src.append(f"{deco}    def f({', '.join(params)}):\n{body}")
+            else:
+                src.append(f"def {m['id']}({', '.join(params)}):\n{body}")
+        if host:
+            src = ["class H(OvldBase):\n"] + src
         code = "\n".join(src)
         fname = f"<vf:dep{id(self)}-{len(linecache.cache)}>"
         linecache.cache[fname] = (len(code), None, code.splitlines(True), fname)
         exec(compile(code, fname, "exec"), ns, ns)
+        if host:
+            self.inst = ns["H"]()
+            return self.inst.f
         ov = Ovld()
         for m in sorted(methods, key=lambda m: m["reg"]):
             ov.register(ns[m["id"]], priority=m["prio"])
